@@ -8,9 +8,17 @@ Inductive nodekind := NKIRI | NKBlankNode | NKLiteral | NKBlankNodeOrIRI | NKBla
 
 Inductive leaf :=
 | LClass (cs:list term)
+| LDatatype (d:term)
 | LNodeKind (k:nodekind)
 | LMinCount (n:Z)
 | LMaxCount (n:Z)
+| LMinExcl (bs:list term) | LMinIncl (bs:list term) | LMaxExcl (bs:list term) | LMaxIncl (bs:list term)
+| LMinLength (n:Z) | LMaxLength (n:Z)
+| LPattern (ps:list N)             (* pattern+flags, interned; matching is an oracle *)
+| LLanguageIn (ranges:list (list N)) (* each language range as its list of (interned, lower-cased) subtags *)
+| LUniqueLang (b:bool)
+| LEquals (ps:list term) | LDisjoint (ps:list term)
+| LLessThan (ps:list term) | LLessThanEq (ps:list term)
 | LHasValue (vs:list term)
 | LIn (vs:list term).
 
@@ -34,12 +42,13 @@ Inductive comp :=
 | CXone (lists:list (list term))
 | CNode (refs:list term)
 | CProperty (refs:list term)
-| CQualified (refs:list term) (qmin qmax:option Z) (disjoint:bool).
+| CQualified (refs:list term) (qmin qmax:option Z) (disjoint:bool)
+| CClosed (closed:bool) (ignored:list term).
 
 Definition comp_kind (c:comp) : ckind :=
   match c with
   | CLeaf _ => KLeaf | CNot _ => KNot | CAnd _ => KAnd | COr _ => KOr | CXone _ => KXone
-  | CNode _ => KNode | CProperty _ => KProperty | CQualified _ _ _ _ => KQualified
+  | CNode _ => KNode | CProperty _ => KProperty | CQualified _ _ _ _ => KQualified | CClosed _ _ => KLeaf
   end.
 
 Record targets := {
@@ -71,14 +80,15 @@ Fixpoint lookup (E:env) (t:term) : option shape :=
 
 (* ---- results ---- *)
 Inductive vresult :=
-  VR (focus:term) (value:option term) (comp:N) (src:term) (sev:term) (details:list vresult).
+  VR (focus:term) (value:option term) (path:option term) (comp:N) (src:term) (sev:term) (details:list vresult).
 
-Definition rfocus (r:vresult) := match r with VR f _ _ _ _ _ => f end.
-Definition rvalue (r:vresult) := match r with VR _ v _ _ _ _ => v end.
-Definition rcomp (r:vresult) := match r with VR _ _ c _ _ _ => c end.
-Definition rsrc (r:vresult) := match r with VR _ _ _ s _ _ => s end.
-Definition rsev (r:vresult) := match r with VR _ _ _ _ s _ => s end.
-Definition rdetails (r:vresult) := match r with VR _ _ _ _ _ d => d end.
+Definition rfocus (r:vresult) := match r with VR f _ _ _ _ _ _ => f end.
+Definition rvalue (r:vresult) := match r with VR _ v _ _ _ _ _ => v end.
+Definition rpath (r:vresult) := match r with VR _ _ p _ _ _ _ => p end.
+Definition rcomp (r:vresult) := match r with VR _ _ _ c _ _ _ => c end.
+Definition rsrc (r:vresult) := match r with VR _ _ _ _ s _ _ => s end.
+Definition rsev (r:vresult) := match r with VR _ _ _ _ _ s _ => s end.
+Definition rdetails (r:vresult) := match r with VR _ _ _ _ _ _ d => d end.
 
 Definition cres := (bool * list vresult)%type.
 
